@@ -11,14 +11,22 @@ theorem consult_eq_phases (cfg : Cfg) (H : Hashes) (s : State) (p : Prompt) (zr 
     consult cfg H s p zr yr =
       match zr, yr with
       | .exc, _ => agentRaised cfg (callExecutor cfg s)
+      | .excU, _ => agentRaisedU cfg (callExecutor cfg s)
+      | .excB, _ => agentAborted (callExecutor cfg s)
       | .ret _, .exc => agentRaised cfg (callAssessor cfg (callExecutor cfg s))
+      | .ret _, .excU => agentRaisedU cfg (callAssessor cfg (callExecutor cfg s))
+      | .ret _, .excB => agentAborted (callAssessor cfg (callExecutor cfg s))
       | .ret z, .ret y => finish cfg H (callAssessor cfg (callExecutor cfg s)) p z y := by
-  unfold consult agentRaised finish
+  unfold consult agentRaised agentRaisedU agentAborted finish
   cases zr with
   | exc => rfl
+  | excU => rfl
+  | excB => rfl
   | ret z =>
     cases yr with
     | exc => rfl
+    | excU => rfl
+    | excB => rfl
     | ret y => rfl
 
 theorem afterCircuit_eq_phases (cfg : Cfg) (H : Hashes) (s : State) (p : Prompt) (zr yr : Resp) :
@@ -72,9 +80,13 @@ theorem execPhases_phasesOfRun (cfg : Cfg) (H : Hashes) (s : State) (p : Prompt)
     rw [consult_eq_phases]
     cases zr with
     | exc => simp [execPhases, phaseStep, hl, phaseReplies]
+    | excU => simp [execPhases, phaseStep, hl, phaseReplies]
+    | excB => simp [execPhases, phaseStep, hl, phaseReplies]
     | ret z =>
       cases yr with
       | exc => simp [execPhases, phaseStep, hl, phaseReplies]
+      | excU => simp [execPhases, phaseStep, hl, phaseReplies]
+      | excB => simp [execPhases, phaseStep, hl, phaseReplies]
       | ret y => simp [execPhases, phaseStep, hl, phaseReplies]
 
 theorem execPhases_append (cfg : Cfg) (H : Hashes) (a b : List PhaseOp) : ∀ (s : State),
@@ -237,6 +249,8 @@ theorem phaseStep_cacheOK (cfg : Cfg) (H : Hashes) (s : State) (op : PhaseOp) (h
   | execCall => simpa [phaseStep, callExecutor] using h
   | assessCall => simpa [phaseStep, callAssessor] using h
   | agentRaised => simpa [phaseStep, agentRaised] using h
+  | agentRaisedU => simpa [phaseStep, agentRaisedU] using h
+  | agentAborted => simpa [phaseStep, agentAborted] using h
   | finish p z y =>
     intro e he
     rcases (finish_spec cfg H s p z y).2 e he with h' | ⟨_, hk, hr⟩
@@ -264,6 +278,8 @@ theorem phaseStep_cacheFrom (cfg : Cfg) (H : Hashes) (s : State) (op : PhaseOp) 
   | execCall => exact weaken _ (by simp [phaseStep, callExecutor])
   | assessCall => exact weaken _ (by simp [phaseStep, callAssessor])
   | agentRaised => exact weaken _ (by simp [phaseStep, agentRaised])
+  | agentRaisedU => exact weaken _ (by simp [phaseStep, agentRaisedU])
+  | agentAborted => exact weaken _ (by simp [phaseStep, agentAborted])
   | finish p z y =>
     intro e he
     have hf := finish_spec cfg H s p z y
@@ -317,6 +333,8 @@ theorem execPhases_originals (cfg : Cfg) (H : Hashes) (ops : List PhaseOp) : ∀
       | execCall => simp [phaseStep] at hout
       | assessCall => simp [phaseStep] at hout
       | agentRaised => simp [phaseStep, agentRaised] at hout
+      | agentRaisedU => simp [phaseStep, agentRaisedU] at hout
+      | agentAborted => simp [phaseStep, agentAborted] at hout
       | finish p z y =>
         simp only [phaseStep, Option.some.injEq] at hout
         rcases (finish_spec cfg H s p z y).1 with ⟨_, h'⟩ | ⟨_, h'⟩ <;> rw [h'] at hout <;> simp at hout
@@ -332,11 +350,12 @@ theorem execPhases_originals (cfg : Cfg) (H : Hashes) (ops : List PhaseOp) : ∀
       subst ha
       simpa [List.append_assoc] using ho'
 
-/-- what a phase can reply: CIRCUIT_OPEN, nothing, an ERROR after an agent exception, the gate's result for the
+/-- what a phase can reply: CIRCUIT_OPEN, nothing (`run` raised: un-encodable prompt, an agent exception that
+    cannot be rendered, an agent's BaseException), an ERROR after an agent exception, the gate's result for the
     finishing request's own prompt and verdicts, or a cache entry (flagged) at a look-up -/
 theorem phaseStep_out (cfg : Cfg) (H : Hashes) (s : State) (op : PhaseOp) (o : Out)
     (h : (phaseStep cfg H s op).2 = some o) :
-    o = ⟨.circuitOpen, some circuitOpenResult⟩ ∨ o = ⟨.raised, none⟩ ∨ o = ⟨.agentExc, some errorResult⟩ ∨
+    o = ⟨.circuitOpen, some circuitOpenResult⟩ ∨ o.result = none ∨ o = ⟨.agentExc, some errorResult⟩ ∨
     (∃ p z y, op = .finish p z y ∧ p.enc = true ∧
       o = ⟨.gated (classifyRun (gateResult H cfg.gate p z y).success (gateResult H cfg.gate p z y).blocked z y),
            some (gateResult H cfg.gate p z y)⟩) ∨
@@ -345,11 +364,13 @@ theorem phaseStep_out (cfg : Cfg) (H : Hashes) (s : State) (op : PhaseOp) (o : O
   | lookup p =>
     rcases (lookup_spec cfg H s p).2 o h with h' | ⟨h', _⟩ | ⟨_, _, e, he, hk, _, h'⟩
     · left; exact h'
-    · right; left; exact h'
+    · right; left; rw [h']
     · right; right; right; right; exact ⟨p, rfl, e, he, hk, h'⟩
   | execCall => simp [phaseStep] at h
   | assessCall => simp [phaseStep] at h
   | agentRaised => right; right; left; simp [phaseStep, agentRaised] at h; exact h.symm
+  | agentRaisedU => right; left; simp [phaseStep, agentRaisedU] at h; rw [← h]
+  | agentAborted => right; left; simp [phaseStep, agentAborted] at h; rw [← h]
   | finish p z y =>
     simp only [phaseStep, Option.some.injEq] at h
     rcases (finish_spec cfg H s p z y).1 with ⟨hp, h'⟩ | ⟨_, h'⟩
